@@ -230,6 +230,6 @@ def nontrivial(c):
 
 
 PARTS = [
-    Part("datum", strategy=case, oracle=oracle, nontrivial=nontrivial, n={"quick": 300, "thorough": 8000},
+    Part("datum", strategy=case, oracle=oracle, nontrivial=nontrivial, n={"quick": 1200, "thorough": 8000},
          sample=lambda c: {"alg": c["alg"], "subset": c["subset"], "gkf": nm.gkf_text(c["net"])[:1000]}),
 ]
